@@ -111,12 +111,12 @@ CLAIMED = {
              'Δ(self.end) equals the net length change of the splices, start is fixed, every splice lies inside [start, end] (so scheme/authority before and query/fragment after are never touched), '
              'holes are tiled exactly, no usize subtraction underflows (pop\'s backward loop keeps its index in the window) — an inductive invariant, hence it holds over any sequence of edits through one handle. '
              'Handle wiring (find_path window, follows_authority from find_authority), composites without own splices, family twins. Language level (Engine D3, virtual cut markers for positions '
-             'inside the path): after push / pop / clear the decomposition of the enclosing buffer is "path = edited window, every other component unchanged" and an absolute path stays absolute, a relative one relative. Text-level list semantics: on every symbolic path the splice of push / pop / clear is one of the shapes of a fixed table (push: the segment — behind "/" when the path is non-empty, behind a "./" shield where documented — is written at the END of the path; pop: everything from the "/" its backward search stopped at, or the whole content of a single-segment path, is removed, or ".." is appended in the documented cases; clear: the content after a leading "/" is removed), and the search of pop starts at the last byte and only moves down (so that "/" is the last one).',
-        design_ref='DESIGN.md §3 Engine D (D1–D4), §4 C10',
-        note='NOT decided: list semantics of push/pop/symbolic push (values). Genuine defects F9 (push of an empty segment after a trailing "./" underflowed) and F10 (push/pop on the empty path after an authority '
+             'inside the path): after push / pop / clear the decomposition of the enclosing buffer is "path = edited window, every other component unchanged" and an absolute path stays absolute, a relative one relative. Text-level list semantics: on every symbolic path the splice of push / pop / clear is one of the shapes of a fixed table (push: the segment — behind "/" when the path is non-empty, behind a "./" shield where documented — is written at the END of the path; pop: everything from the "/" its backward search stopped at, or the whole content of a single-segment path, is removed, or ".." is appended in the documented cases; clear: the content after a leading "/" is removed), and the search of pop starts at the last byte and only moves down (so that "/" is the last one). Directory meaning: symbolic_push is executed abstractly over ALL segment strings (Engine S) with an opaque handle: "." calls nothing and returns true, ".." calls pop once and returns true, any other segment is pushed once, unchanged, and returns false; symbolic_append hands every item of its argument, in order, to symbolic_push and then pushes the EMPTY segment exactly when the last flag was true and the path is not empty.',
+        design_ref='DESIGN.md §3 Engine D (D1–D4), §4 C10, §10.14',
+        note='NOT decided: the decoded segment sequence after a history of edits (obtained by composing the per-operation facts with C12: an argument in DESIGN.md §10.14, not a check). Genuine defects F9 (push of an empty segment after a trailing "./" underflowed) and F10 (push/pop on the empty path after an authority '
              'appended to the authority) were found by these rules and repaired by fix: commits. Old note: F9 (push of an empty segment after a trailing "./" underflowed the end offset: panic in debug builds) '
              'was found by the underflow rule and repaired by a fix: commit.',
-        technique='path-sensitive effect analysis of MIR: abstract interpretation over an affine domain with loop widening, window accounting and tiling rules (static analysis)',
+        technique='path-sensitive effect analysis of MIR: abstract interpretation over an affine domain with loop widening, window accounting, tiling and splice-shape rules; explicit-state abstract execution of symbolic_push over all segment strings (static analysis)',
         engine='D',
     ),
     'C11': dict(
